@@ -158,6 +158,7 @@ func envInt(name string, def int64) int64 {
 }
 
 type jobResult struct {
+	Cfg  interp.Config
 	Job  Job
 	Sum  interp.Summary
 	Err  string
@@ -337,7 +338,7 @@ func cmdCheck(args []string) int {
 		eng.SetConfig(jc)
 		jt := time.Now()
 		err := eng.Explore()
-		jr := jobResult{Job: j, Sum: eng.Sum, Wall: time.Since(jt).Seconds()}
+		jr := jobResult{Cfg: jc, Job: j, Sum: eng.Sum, Wall: time.Since(jt).Seconds()}
 		if err != nil {
 			jr.Err = err.Error()
 		}
